@@ -863,6 +863,59 @@ def run(ctx):
     ctx.log("sympy done")
     ctx.part("sympy_denominators", products=ndom)
 
+    # ------------------------------------------------------------------
+    # 9. explicit option bw_l: the L of the documented formula is the CONFIGURED bw_l, also when the particle's own
+    #    decay does not allow that l (minimal l of the decay != bw_l).  Every model that takes bw_l; each object is
+    #    evaluated repeatedly (a replacement of the option would persist on the object), then its symbolic denominator.
+    # ------------------------------------------------------------------
+    nbl = 0
+    for model, ent, has_dom in (("BWR", "BWR", True), ("default", "BWR", True), ("BWR2", "BWR2", True), ("BWR_below", "BWR_below", True),
+                                ("BWR_coupling", "BWR_coupling", True), ("BWR_normal", "BWR_normal", False), ("GS_rho", "GS_rho", False)):
+        for decL, bwl in ((1, 0), (2, 0), (0, 2), (1, 2)):
+            b, _ = random_base(True)
+            thr = 0.75
+            b.update(m1=0.5, m2=0.25, ma_0=0.5, mb_0=0.25, mpi=0.375, m_min=thr, m0=thr + rng.uniform(0.15, 2.0))
+            b["m_max"] = b["m0"] + 1.0
+            m = masses(thr, 0.5, 0.25, nm, "above")
+            e = ls.bind_env(ev, dict(b, m=m, x=m), derived, above_only, True)
+            with np.errstate(all="ignore"):
+                ref = np.broadcast_to(npc(ev(tree(ent, bwl), e)), m.shape)
+            extra = {"bw_l": bwl}
+            if model == "GS_rho":
+                extra.update(c_daug2Mass=0.5, c_daug3Mass=0.25)
+            tk = "particle:" + model
+            try:
+                pp, dec, _ = ls.build_particle(model, decL, fl(e["m0"]), fl(e["g0"]), 0.5, 0.25,
+                                               parent=(fl(e["m_max"]) + 0.7, 0.7) if model == "BWR_below" else None, **extra)
+                lmin = min(dec.get_l_list())
+            except Exception as ex:  # noqa: BLE001
+                F.record(tk, "explicit_bw_l:raise", bwl, False, lambda ex=ex: {"bw_l": bwl, "decay_min_l": decL, "error": repr(ex)[:300]})
+                continue
+            if lmin != decL or lmin == bwl:
+                raise tlc.MachineryError("explicit bw_l probe: decay of J=%d has minimal l %d" % (decL, lmin))
+            paths = [("__call__ (1st evaluation)", lambda e_, L_, pp=pp: like(pp(e_["m"]), e_)),
+                     ("get_amp (2nd evaluation)", lambda e_, L_, pp=pp: like(pp.get_amp({"m": e_["m"]}, data_c(e_)), e_)),
+                     ("__call__ (3rd evaluation)", lambda e_, L_, pp=pp: like(pp(e_["m"]), e_))]
+            nbl += compare(tk, "explicit_bw_l", bwl, bwl, paths, e, ref)
+            F.record(tk, "explicit_bw_l:option_replaced", bwl, pp.bw_l == bwl,
+                     lambda pp=pp: {"configured_bw_l": bwl, "decay_min_l": decL, "bw_l_after_evaluation": pp.bw_l})
+            if has_dom:
+                try:
+                    with np.errstate(all="ignore"):
+                        dv = dom_particle(pp, m)
+                    okd = ls.close(dv * ref, 1.0, REL, ABS)
+                    F.record(tk, "explicit_bw_l:sympy_dom", bwl, bool(np.all(okd)),
+                             lambda dv=dv, okd=okd, ref=ref: {"configured_bw_l": bwl, "decay_min_l": decL, "inputs": describe(e, int(np.argmin(okd))),
+                                                              "denominator": cx(dv.ravel()[int(np.argmin(okd))]),
+                                                              "documented_line_shape_with_L=bw_l": cx(ref.ravel()[int(np.argmin(okd))])})
+                except Exception as ex:  # noqa: BLE001
+                    F.record(tk, "explicit_bw_l:sympy_dom:raise", bwl, False, lambda ex=ex: {"bw_l": bwl, "error": repr(ex)[:300]})
+                nbl += m.size
+            ctx.count(0, distinct_key=("bw_l", model, decL, bwl))
+    ctx.count(nbl)
+    ctx.log("explicit bw_l done")
+    ctx.part("explicit_bw_l", comparisons=nbl, models=7, combinations_decay_min_l_vs_bw_l=[[1, 0], [2, 0], [0, 2], [1, 2]])
+
     F.emit()
     worst = {"%s:%s" % k: v for k, v in sorted(F.worst.items()) if k not in F.fail}
     ctx.part("max_rel_err_passing", **{k: v for k, v in worst.items() if v > 1e-11})
@@ -889,6 +942,9 @@ def run(ctx):
     ctx.assume("sympy denominators are judged where the model provides its own formula or shares the documented one: BW, BWR/default, BWR2, BWR_below, "
                "BWR_coupling, BWR_LS, Flatte/FlatteC with sheet = all channels on the +q_i branch (the doc strings do not define `sheet`; "
                "default sheet=0 flips every q_i). BWR_normal, GS_rho, one, exp, exp_com, x inherit Particle.get_sympy_dom (a plain BWR denominator): not 'provided', not judged")
+    ctx.assume("explicit bw_l is judged for the models whose get_amp reads it (BWR/default, BWR2, BWR_below, BWR_coupling, BWR_normal, GS_rho) "
+               "with bw_l in {0, 2} on decays whose minimal l is 1, 2, 0, 1; bw_l is an option of Particle.__init__ without a doc string of its own: "
+               "reading = the L of the documented Gamma(m) / barrier factor is the configured value")
     ctx.assume("np.Inf shim of harness/prelude.py")
 
 
